@@ -66,6 +66,37 @@ theorem fragment_fits (p : Packet) (lb : Option BlockValue) (M size : Nat) (b : 
     wireLen (toMsg { (p.setOption n [bs]) with payload := chunk }) ≤ M :=
   Block.fragment_fits p lb M size b n bs chunk hs hk hg hn hlb hsz hneg h16 hbs hc
 
+/-- … and so does EVERY later block of a fragmented response, whatever token (0–8 bytes) the
+request for that block carries and whatever its block number is (D19 fix: the handler measures
+the reply to the first request with room for a maximum-length token). `p` is the application's
+reply, `b` the size negotiated for it, `b'`/`bs` the Block2 value of the block being served,
+`tok` the token of the request being answered. No hypothesis ties `tok` to the first request's
+token. -/
+theorem followup_fits (p : Packet) (lb : Option BlockValue) (M size : Nat) (b b' : BlockValue)
+    (bs chunk tok : Bytes)
+    (hs : p.options.Sorted) (hk : ∀ kv ∈ p.options, kv.1 ≤ 65535)
+    (hg : p.getOption block2Num = none)
+    (hlb : ∀ r, lb = some r → BvOk r)
+    (hsz : computeMessageSize p = .ok size)
+    (hneg : negotiate lb (size + tokenReserve p) p.payload.length M = .ok (some b))
+    (h16 : 16 ≤ blockBudget (size + tokenReserve p) p.payload.length M)
+    (hb' : BvOk b') (hbs : b'.enc = .ok bs)
+    (hc : chunk.length ≤ b.size) (htok : tok.length ≤ 8) (hptok : p.token.length ≤ 8) :
+    wireLen (toMsg { (p.setOption block2Num [bs]) with payload := chunk, token := tok }) ≤ M :=
+  Block.followup_fits p lb M size b b' bs chunk tok hs hk hg hlb hsz hneg h16 hb' hbs hc htok hptok
+
+theorem token_reserve (p : Packet) : tokenReserve p = 8 - p.token.length := by
+  unfold tokenReserve; rfl
+
+/-- the room reserved for a response (12 bytes of block options + up to 8 of token = at most 20)
+stays within the property's 32 spare bytes: a client size that fits the budget with at least 32
+bytes to spare is used exactly, also with the token reserve -/
+theorem room_32_suffices_with_reserve (r : BlockValue) (p : Packet) (ms tp M : Nat) (hms : tp ≤ ms)
+    (h : r.size + (ms - tp) + 32 ≤ M) : r.size ≤ blockBudget (ms + tokenReserve p) tp M := by
+  unfold blockBudget tokenReserve
+  simp only [block_options_reserve, Consts.maximumTokenLength]
+  omega
+
 /-- and that wire length is what the serialiser produces (C04) -/
 theorem wireLen_is_encoded_length (p : Packet) (bs : Bytes) (h : enc p none = .ok bs) :
     bs.length = wireLen (toMsg p) :=
